@@ -3,7 +3,7 @@ import time, random, json, re
 import common, coqrun, proofcheck, history
 
 PID = "C05"
-FOCUS = ("wf", "raise")
+FOCUS = ("wf",)        # a valid call that raises is not an ill-formed object: it is counted in the evidence, the product/solver checks own it
 
 def run(tier, seed, replay=None, pid=PID, focus=FOCUS):
     import torch
@@ -13,7 +13,7 @@ def run(tier, seed, replay=None, pid=PID, focus=FOCUS):
     nwalks, length = (70, 22) if tier == "quick" else (900, 30)
     rng = random.Random(seed + (0 if pid == "C05" else 1))
     walks, exprs = [], []
-    dist, nobj, ncalls = {}, 0, 0
+    dist, nobj, ncalls, raised = {}, 0, 0, {}
     for k in range(nwalks):
         s = rng.randrange(1 << 30)
         dtype = rng.choice([torch.float64, torch.float64, torch.float64, torch.float32, torch.complex128])
@@ -23,6 +23,8 @@ def run(tier, seed, replay=None, pid=PID, focus=FOCUS):
         nobj += len(w.pool); ncalls += len(w.log)
         for nm in w.log:
             key = nm.split("(")[0]; dist[key] = dist.get(key, 0) + 1
+        for kind, msg, step in w.fails:
+            if kind == "raise": raised[msg.split(":")[0][:60]] = raised.get(msg.split(":")[0][:60], 0) + 1
         seen_kind = set()
         for kind, msg, step in w.fails:
             if kind in focus and kind not in seen_kind:        # the first failure of each kind in a walk; later ones are consequences
@@ -55,6 +57,6 @@ def run(tier, seed, replay=None, pid=PID, focus=FOCUS):
               "its snapshot (cores, versions, storage pointers, list identity, R/N/M/shape) unless it was the target of an in-place call; the whole history is replayed in the Coq "
               "state machine and the final descriptors compared; non-trivial = a walk with at least 5 executed calls; distinct = distinct call sequences") % length,
         samples=[w.log for _, _, w in walks[:3]], distribution=dist, walks=nwalks, objects_created=nobj,
-        histories_agreeing_with_model=n_model_ok, known_findings_reproduced=V.known_hit)
+        histories_agreeing_with_model=n_model_ok, calls_that_raised=raised, known_findings_reproduced=V.known_hit)
     common.write_evidence(pid, tier, seed, cov, time.time() - t0, nviol, common.TRUSTED_BASE)
     return 1 if nviol else 0
